@@ -190,6 +190,7 @@ def run(tier):
     kinds = ['pickle', 'copy', 'wu', 'memcache', 'memcache_map', 'diskcache', 'memcache_shared', 'diskcache_shared', 'memcache_copy', 'memcache_copy_shared']
     cases, lcases, lmeta, meta, failures = [], [], [], [], []
     for ci in range(5000 if big else 500):
+        common.tick()
         kind = r.choice(kinds)
         n = r.randint(1, 4)
         keyed = kind not in ('wu',) and r.random() < 0.5
